@@ -97,3 +97,12 @@ pub enum UEnum3 {
     B(u8, u32, u8),
     C { id: u8, key: u16, items: FlatVec<u8, u8> },
 }
+
+/// unsized enum whose small variant holds a CONSTRAINED byte (Bool) at a position that a larger variant's first field covers
+#[flat(sized = false, default = true)]
+pub enum UEnumB {
+    #[default]
+    A,
+    B(u8, Bool),
+    C { offset: u32, bytes: FlatVec<u8, u16> },
+}
